@@ -3591,10 +3591,25 @@ const maxReadRetries = 20
 func (p *Posix) GetObject(ctx context.Context, input *s3.GetObjectInput) (*s3.GetObjectOutput, error) {
 	for i := 0; ; i++ {
 		out, err := p.getObject(ctx, input)
-		if !errors.Is(err, errObjectReplaced) || i == maxReadRetries {
+		if !readInterrupted(err) || i == maxReadRetries {
 			return out, err
 		}
 	}
+}
+
+// readInterrupted reports whether a read of an object failed because the
+// object was replaced or removed after it had been found: a later step
+// saw another file, or none at all. Starting over gives the new object
+// or a clean NoSuchKey instead of an internal error.
+func readInterrupted(err error) bool {
+	if err == nil {
+		return false
+	}
+	if errors.Is(err, errObjectReplaced) {
+		return true
+	}
+	var apierr s3err.APIError
+	return !errors.As(err, &apierr) && errors.Is(err, fs.ErrNotExist)
 }
 
 func (p *Posix) getObject(_ context.Context, input *s3.GetObjectInput) (*s3.GetObjectOutput, error) {
@@ -3844,7 +3859,7 @@ func (p *Posix) getObject(_ context.Context, input *s3.GetObjectInput) (*s3.GetO
 func (p *Posix) HeadObject(ctx context.Context, input *s3.HeadObjectInput) (*s3.HeadObjectOutput, error) {
 	for i := 0; ; i++ {
 		out, err := p.headObject(ctx, input)
-		if !errors.Is(err, errObjectReplaced) || i == maxReadRetries {
+		if !readInterrupted(err) || i == maxReadRetries {
 			return out, err
 		}
 	}
